@@ -130,7 +130,7 @@ def solver_closures(ctx):
         ctx.fact("frames/solver-closures/%s" % q, "skfem/utils.py::%s" % q, not bad,
                  "the closure modifies captured state: %s" % "; ".join(repr(b) for b in bad[:2]),
                  clause="modifies nothing rooted at a closure cell (per-call options are merged into a per-call dictionary)",
-                 backend="provenance-analysis", replay=dict(kind="state_case", what="history", only="history/seed0-seq0", seed=0, tier="quick"))
+                 backend="provenance-analysis", replay=dict(kind="solver_reuse"))
     ctx.fact("frames/solver-closures/nonvacuous", "skfem/utils.py", sum(1 for q in res if ".<locals>.solver" in q) >= 5, "solver closures not found")
 
 
@@ -238,6 +238,40 @@ def element_global(ctx):
 
 
 UNITS["coherence/element-global"] = element_global
+
+
+def solver_reuse(ctx):
+    from native.replay_misc import solver_reuse_failures
+    import skfem.utils as U
+    fails = solver_reuse_failures()
+    for name in ("solver_iter_pcg", "solver_iter_krylov", "solver_direct_scipy", "solver_iter_cg", "solver_eigen_scipy_sym"):
+        mine = [f for f in fails if f.startswith(name + ":")]
+        ctx.fact("coherence/solver-reuse/%s" % name, ctx.function(getattr(U, name)), not mine, "; ".join(mine),
+                 clause="a reused solver object == a fresh solver object (second system of another size; options of an earlier call)",
+                 backend="path-execution", replay=dict(kind="solver_reuse"))
+
+
+UNITS["coherence/solver-reuse"] = solver_reuse
+
+
+def table_alias(ctx):
+    """results handed out by lbasis must not be overwritten by a later evaluation (no shared buffers)."""
+    import skfem as fem
+    for name, mk, d in (("ElementLinePp(3)", lambda: fem.ElementLinePp(3), 1), ("ElementQuadP(3)", lambda: fem.ElementQuadP(3), 2), ("ElementLinePp(5)", lambda: fem.ElementLinePp(5), 1)):
+        e = mk()
+        X1, X2 = np.random.RandomState(0).rand(d, 4), np.random.RandomState(1).rand(d, 4)
+        ok = True
+        for i in range(3):
+            r1 = e.lbasis(X1, i)
+            keep = [np.array(a, copy=True) for a in r1]
+            e.lbasis(X2, i)
+            ok &= all(np.array_equal(a, b) for a, b in zip(r1, keep))
+        ctx.fact("coherence/table-alias/%s" % name, ctx.function(type(e).lbasis), bool(ok),
+                 "arrays returned by lbasis(X1, i) change when lbasis(X2, i) is evaluated afterwards (shared buffer)",
+                 clause="results are not aliased with buffers that later evaluations overwrite", backend="path-execution", replay=dict(kind="table_alias"))
+
+
+UNITS["coherence/table-alias"] = table_alias
 
 
 def symbolic_frames(ctx):
